@@ -1,9 +1,202 @@
 import Driver.Json
-open Lean Drv
+import Model.RaggedW
+open Lean Drv Ens Ens.RaggedW
 
+/-! Driver for C06: runs a whole history through `Ens.RaggedW.step` (model of the code) and
+through `Ens.RaggedW.specStep` (list-of-rows specification) and reports every observer after
+every step.  Elements are `Rat` (ints, dyadic floats, booleans as 0/1). -/
 namespace Drv.C06
 
-def handle (op : String) (_req : Json) : Except String Json :=
-  throw s!"bad-op C06.{op}"
+def errStr : Err → String
+  | .indexError => "index-error"
+  | .valueError => "value-error"
+  | .dataInvalid => "data-invalid"
+  | .garbled => "garbled"
+  | .emptyArray => "empty-array"
+
+def getSlice (j : Json) : Except String PySlice := do
+  match ← getArr j with
+  | [a, b, c] => pure { start := ← getOptInt a, stop := ← getOptInt b, step := ← getOptInt c }
+  | _ => throw "slice needs [start, stop, step]"
+
+def getSel (j : Json) : Except String Sel :=
+  match fieldOpt j "slice" with
+  | some s => do pure (.slice (← getSlice s))
+  | none => do pure (.list (← getList getInt (← field j "list")))
+
+def getCSel (j : Json) : Except String CSel :=
+  match fieldOpt j "slice", fieldOpt j "int" with
+  | some s, _ => do pure (.slice (← getSlice s))
+  | none, some i => do pure (.int (← getInt i))
+  | none, none => do pure (.list (← getList getInt (← field j "list")))
+
+def getVal (j : Json) : Except String (Val Rat) := do
+  let vt ← getStr (← field j "vt")
+  let v ← field j "v"
+  match vt with
+  | "scalar" => pure (.scalar (← getRat v))
+  | "flat" => pure (.flat (← getList getRat v))
+  | "nested" => pure (.nested (← getList (getList getRat) v))
+  | _ => throw s!"bad value type {vt}"
+
+def getForm (j : Json) : Except String Form := do
+  match ← getStr j with
+  | "ra" => pure .ra
+  | "listarr" => pure .listarr
+  | "listlist" => pure .listlist
+  | "arr2d" => pure .arr2d
+  | f => throw s!"bad form {f}"
+
+def b2r (b : Bool) : Rat := if b then 1 else 0
+def fdiv (x y : Rat) : Rat := ((x / y).floor : Int)
+def fmod (x y : Rat) : Rat := x - y * fdiv x y
+
+/-- binary element functions by name (`self ⊕ other`) -/
+def binFn (name : String) : Except String (Rat → Rat → Rat) :=
+  match name with
+  | "add" => pure (· + ·)
+  | "sub" => pure (· - ·)
+  | "mul" => pure (· * ·)
+  | "truediv" => pure (· / ·)
+  | "floordiv" => pure fdiv
+  | "mod" => pure fmod
+  | "eq" => pure fun x y => b2r (x == y)
+  | "ne" => pure fun x y => b2r (x != y)
+  | "lt" => pure fun x y => b2r (x < y)
+  | "le" => pure fun x y => b2r (x ≤ y)
+  | "gt" => pure fun x y => b2r (x > y)
+  | "ge" => pure fun x y => b2r (x ≥ y)
+  | "or" => pure fun x y => b2r (x != 0 || y != 0)       -- boolean operands only
+  | "and" => pure fun x y => b2r (x != 0 && y != 0)
+  | "xor" => pure fun x y => b2r ((x != 0) != (y != 0))
+  | n => throw s!"bad element function {n}"
+
+/-- unary element function of an op: `f` with scalar `c` (possibly reflected), or invert -/
+def unFn (j : Json) : Except String (Rat → Rat) := do
+  let name ← getStr (← field j "f")
+  match name with
+  | "invert-bool" => pure fun x => 1 - x
+  | "invert-int" => pure fun x => -x - 1
+  | _ =>
+    let g ← binFn name
+    let c ← getRat (← field j "s")
+    let refl := match fieldOpt j "refl" with
+      | some (.bool true) => true
+      | _ => false
+    pure (if refl then fun x => g c x else fun x => g x c)
+
+def getOp (j : Json) : Except String (Op Rat) := do
+  let k ← getStr (← field j "k")
+  match k with
+  | "setElem" => pure (.setElem (← getInt (← field j "i")) (← getInt (← field j "j")) (← getRat (← field j "v")))
+  | "viewWrite" => pure (.viewWrite (← getInt (← field j "i")) (← getInt (← field j "j")) (← getRat (← field j "v")))
+  | "setRow" => pure (.setRow (← getInt (← field j "i")) (← getList getRat (← field j "v")))
+  | "setRows" => pure (.setRows (← getSel (← field j "sel")) (← getList (getList getRat) (← field j "v"))
+                        (← getForm (← field j "form")))
+  | "setIntSlice" => pure (.setIntSlice (← getInt (← field j "i")) (← getSlice (← field j "sl")) (← getVal j))
+  | "set2d" => pure (.set2d (← getSel (← field j "r")) (← getCSel (← field j "c")) (← getVal j))
+  | "setPaired" => pure (.setPaired (← getList getInt (← field j "r")) (← getList getInt (← field j "c")) (← getVal j))
+  | "setMask" => pure (.setMask (← getList (getList getBool) (← field j "mask")) (← getVal j))
+  | "append" => pure (.append (← getList (getList getRat) (← field j "v")) (← getForm (← field j "form")))
+  | "appendFlat" => pure (.appendFlat (← getList getRat (← field j "v")))
+  | "iop" => pure (.iop (← unFn j))
+  | "iop2" => pure (.iop2 (← binFn (← getStr (← field j "f"))) (← getList (getList getRat) (← field j "o")))
+  | "iopAt" => pure (.iopAt (← getSel (← field j "r")) (← getCSel (← field j "c")) (← unFn j))
+  | "binop" => pure (.binop (← unFn j))
+  | "binop2" => pure (.binop2 (← binFn (← getStr (← field j "f"))) (← getList (getList getRat) (← field j "o")))
+  | "copyCtor" => pure (.copyCtor (← getBool (← field j "viaFlat")) (← getBool (← field j "np")))
+  | _ => throw s!"bad C06 op kind {k}"
+
+def rowsJson (rows : List (List Rat)) : Json := listJson (listJson ratJson) rows
+
+def maxOf : List Rat → Option Rat
+  | [] => none
+  | x :: xs => some (xs.foldl (fun m y => if m < y then y else m) x)
+
+def minOf : List Rat → Option Rat
+  | [] => none
+  | x :: xs => some (xs.foldl (fun m y => if y < m then y else m) x)
+
+def obsJson (cfg : Cfg) (s : State Rat) : Json :=
+  let elems : Json := Json.arr ((List.range s.lengths.length).map fun (i : Nat) =>
+    Json.arr ((List.range (s.lengths.getD i 0)).map fun (j : Nat) =>
+      match obsElem s (Int.ofNat i) (Int.ofNat j) with
+      | .ok x => ratJson x
+      | .error e => Json.str (errStr e)).toArray).toArray
+  Json.mkObj [
+    ("_data", listJson ratJson (obsFlat s)),
+    ("lengths", listJson natJson (obsLengths s)),
+    ("_array", rowsJson s.array),
+    ("starts", listJson natJson (obsStarts s)),
+    ("len", natJson (obsLen s)),
+    ("size", natJson (obsSize s)),
+    ("iter", rowsJson (obsIter s)),
+    ("elems", elems),
+    ("max", optJson ratJson (maxOf s.data)),
+    ("min", optJson ratJson (minOf s.data)),
+    ("all", Json.bool (obsReduce s (fun b x => b && x != 0) true)),
+    ("any", Json.bool (obsReduce s (fun b x => b || x != 0) false)),
+    ("objdtype", Json.bool s.objDtype),
+    ("kind", Json.str (match s.kind cfg with | .ragged => "ragged" | .objBlock => "objBlock" | .typedBlock => "typedBlock"))]
+
+def getCfg (j : Json) : Except String Cfg := do
+  pure { readsFix := ← getBool (← field j "reads"),
+         rowViewsFix := ← getBool (← field j "rowviews"),
+         arrayViewsFix := ← getBool (← field j "arrayviews"),
+         appendFix := ← getBool (← field j "append") }
+
+def initState (cfg : Cfg) (rows : List (List Rat)) (ctor : String) : Except String (Except Err (State Rat)) :=
+  match ctor with
+  | "nested" | "lists" => pure (initRows rows)
+  | "flat" => pure (initFlat cfg rows.flatten (rows.map List.length) false)
+  | "flat-np" => pure (initFlat cfg rows.flatten (rows.map List.length) true)
+  | c => throw s!"bad ctor {c}"
+
+/-- run the history; a pseudo-op `{"k":"resync","rows":…}` restarts model and spec from the
+given rows (the harness does the same with the real object after a known deviation). -/
+def runHistory (cfg : Cfg) (s0 : State Rat) (ops : List Json) : Except String (List Json) := do
+  let mut s := s0
+  let mut rows := s0.array
+  let mut out : List Json := []
+  for j in ops do
+    let k ← getStr (← field j "k")
+    if k == "resync" then
+      let r ← getList (getList getRat) (← field j "rows")
+      match initRows r with
+      | .ok s' =>
+        s := s'
+        rows := r
+      | .error e => throw s!"resync failed: {errStr e}"
+      out := out ++ [Json.mkObj [("resync", Json.bool true)]]
+    else
+      let op ← getOp j
+      let m : Json := match step cfg s op with
+        | .error e => Json.mkObj [("err", Json.str (errStr e))]
+        | .ok (s', o) => Json.mkObj [("state", obsJson cfg s'), ("out", optJson (obsJson cfg) o)]
+      let sp : Json := match specStep rows op with
+        | .error e => Json.mkObj [("err", Json.str (errStr e))]
+        | .ok (r', o) => Json.mkObj [("rows", rowsJson r'), ("out", optJson rowsJson o)]
+      match step cfg s op with
+      | .ok (s', _) => s := s'
+      | .error _ => pure ()
+      match specStep rows op with
+      | .ok (r', _) => rows := r'
+      | .error _ => pure ()
+      out := out ++ [Json.mkObj [("model", m), ("spec", sp)]]
+  pure out
+
+def handle (op : String) (req : Json) : Except String Json := do
+  match op with
+  | "run" =>
+    let cfg ← getCfg (← field req "cfg")
+    let init ← field req "init"
+    let rows ← getList (getList getRat) (← field init "rows")
+    let ctor ← getStr (← field init "ctor")
+    match ← initState cfg rows ctor with
+    | .error e => pure (errJson (errStr e))
+    | .ok s0 =>
+      let steps ← runHistory cfg s0 (← getArr (← field req "ops"))
+      pure (okJson (Json.mkObj [("init", obsJson cfg s0), ("steps", Json.arr steps.toArray)]))
+  | _ => throw s!"bad-op C06.{op}"
 
 end Drv.C06
